@@ -331,15 +331,7 @@ func partial(env Env, n ast.IsNode) (ast.IsNode, error) {
 			},
 		)
 	case ast.NodeTypeIsIn:
-		return tryPartial(env,
-			[]ast.IsNode{v.Left, v.Entity},
-			func(values []types.Value) Evaler {
-				return newIsInEval(newLiteralEval(values[0]), v.EntityType, newLiteralEval(values[1]))
-			},
-			func(nodes []ast.IsNode) ast.IsNode {
-				return ast.NodeTypeIsIn{NodeTypeIs: ast.NodeTypeIs{Left: nodes[0], EntityType: v.EntityType}, Entity: nodes[1]}
-			},
-		)
+		return partialIsIn(env, v)
 
 	case ast.NodeTypeExtensionCall:
 		nodes := make([]ast.IsNode, len(v.Args))
@@ -508,6 +500,41 @@ func partialIfThenElse(env Env, v ast.NodeTypeIfThenElse) (ast.IsNode, error) {
 		return nil, elseErr
 	}
 	return ast.NodeTypeIfThenElse{If: ifNode, Then: thenNode, Else: elseNode}, nil
+}
+
+// partialIsIn handles `e is T in f`, which is not strict in f: when the type test fails the result
+// is false and f is never evaluated, so an error of f may only be reported once the test is known to pass.
+func partialIsIn(env Env, v ast.NodeTypeIsIn) (ast.IsNode, error) {
+	mk := func(nodes []ast.IsNode) ast.IsNode {
+		return ast.NodeTypeIsIn{NodeTypeIs: ast.NodeTypeIs{Left: nodes[0], EntityType: v.EntityType}, Entity: nodes[1]}
+	}
+	left, leftErr := partial(env, v.Left)
+	switch {
+	case errors.Is(leftErr, errVariable):
+	case leftErr != nil:
+		return nil, leftErr
+	default:
+		if lv, ok := left.(ast.NodeValue); ok {
+			if ent, isEnt := lv.Value.(types.EntityUID); isEnt && ent.Type != v.EntityType {
+				return ast.NodeValue{Value: types.False}, nil
+			}
+			// the type test passes (or the operand is not an entity at all): strict in both operands
+			return tryPartial(env, []ast.IsNode{v.Left, v.Entity},
+				func(values []types.Value) Evaler {
+					return newIsInEval(newLiteralEval(values[0]), v.EntityType, newLiteralEval(values[1]))
+				}, mk)
+		}
+	}
+	// the left operand is still unknown: keep the right operand, and any error it has, in the residual
+	right, rightErr := partial(env, v.Entity)
+	if errors.Is(rightErr, errIgnore) {
+		return nil, rightErr
+	} else if rightErr != nil && !errors.Is(rightErr, errVariable) {
+		right = extError(rightErr)
+	} else if right, rightErr = residualOperand(right, v.Entity); rightErr != nil {
+		return nil, rightErr
+	}
+	return mk([]ast.IsNode{left, right}), nil
 }
 
 func partialAnd(env Env, v ast.NodeTypeAnd) (ast.IsNode, error) {
